@@ -171,8 +171,15 @@ def reconnect_oracle(ix: Index, scn: dict) -> list[Violation]:
             auth_streak = True
         if nxt is None or rep_done is None or rep_done[0] > nxt["seq_new"]:
             continue
-        if disturbed(a["seq_new"], nxt["seq_new"]) or "APIConnectionCancelledError" in cls:
+        if "APIConnectionCancelledError" in cls:
             streak_known = False
+            continue
+        if disturbed(a["seq_new"], nxt["seq_new"]):
+            # a record that arrived during the wait (after the failure had been handled, nothing in flight) only brings the
+            # next attempt forward: the count of consecutive failures goes on; anything else makes it unknown
+            only_records_in_wait = not any(a_ <= nxt["seq_new"] and b_ >= a["seq_new"] for a_, b_, _k, _t in ctl) and all(sq > rep_done[0] for sq, _t, d_ in records if a["seq_new"] <= sq <= nxt["seq_new"] and d_["n_listeners"] > 0)
+            if not only_records_in_wait:
+                streak_known = False
             continue
         if not streak_known:
             continue
